@@ -20,9 +20,15 @@ RULE = ("seeded valid definitions (string-keyed readings; a separate Symbol-keye
         "one random position per kind and definition; thorough: every position, and pairs) through ui.Model, python.compile, "
         "python.compile_ekf, cpp.compile, cpp.compile_ekf; accepted / refused compared with the property (valid <=> accepted) and with "
         "the Lean accepts-functions; for the C++ entry points a refusal must leave no header/source behind; distinct by (definition, fault, "
-        "entry point); non-trivial = a fault is injected, or the definition has >=2 sensors")
+        "entry point); non-trivial = a fault is injected, or the definition has >=2 sensors; "
+        "written-order stream (fixed inputs): two hand-written valid definitions with two and three controls, controls declared as a list "
+        "(both orders) and as a set, the process-noise table written in EVERY order of its entries (V3: still valid, must be accepted by "
+        "python.compile_ekf and cpp.compile_ekf), and for every written order an entry dropped / an entry for a state or an undeclared "
+        "symbol inserted at every position (K10p, K11ap, K11bp: must be refused)")
 NOTE = ["'refused' = any exception (the library uses ModelDefinitionError, ModelConstructionError, AssertionError, TypeError, KeyError)",
-        "off-diagonal (tuple-keyed) process noise is outside both generators; negative process noise means clearly negative (<= -1/8)"]
+        "off-diagonal (tuple-keyed) process noise is outside both generators; negative process noise means clearly negative (<= -1/8)",
+        "written-order stream: a definition is a set of declarations - the order in which the entries of the process-noise dict are written "
+        "(relative to the order in which the controls were declared) is not a structural property, so every order of a valid table is valid"]
 PARTIAL = ["extra_validation (nonlinsolve) is not exercised"]
 
 KINDS_UI = ["K1", "K2", "K3", "K4", "K5", "K6"]
@@ -244,14 +250,16 @@ def attempt(fn):
         return "refused:" + type(e).__name__
 
 
-def run_entry_points(ctx, spec, which, tag, shared=None):
+def run_entry_points(ctx, spec, which, tag, shared=None, container=None, flags=None):
     """-> {entry point: 'accepted' | 'refused:<kind>'}. `shared`: a dict carrying the ui.Model object of the valid base
-    definition, re-used for faults that only touch the other arguments (a model object is normally compiled many times)"""
+    definition, re-used for faults that only touch the other arguments (a model object is normally compiled many times).
+    `container` / `flags`: fixed by the caller (nothing is drawn from ctx.rng then)"""
     from formak import cpp, python
     res = {}
-    container = ctx.rng.choice(["set", "list"])
+    container = ctx.rng.choice(["set", "list"]) if container is None else container
     # the optional model switches do not change what is accepted
-    flags = {"proactive_simplify": True} if (which == "ui" or shared is None) and ctx.rng.random() < 0.5 else {}
+    if flags is None:
+        flags = {"proactive_simplify": True} if (which == "ui" or shared is None) and ctx.rng.random() < 0.5 else {}
     res_flags = "proactive_simplify" if flags else "default"
     ctx.count(f"ui_flags={res_flags}")
     holder = {}
@@ -305,6 +313,50 @@ def run_entry_points(ctx, spec, which, tag, shared=None):
     return res
 
 
+def written_order_stream(ctx, drv, pending):
+    """fixed inputs (nothing drawn from ctx.rng): valid definitions with two and three controls; the process-noise table in every
+    written order, against every way of declaring the controls; for every written order also the single faults of the process-noise
+    table at every position. The oracle is the property itself (and, in run(), the Lean accepts-functions)."""
+    import itertools
+    from fractions import Fraction as F
+    dt = Symbol("dt")
+    x, v, a, b, c, k = (Symbol(n) for n in ("x", "v", "a", "b", "c", "k"))
+    d2 = gen.Definition(dt, [x, v], [a, b], [k], {x: x + v * dt, v: v + (a + 2 * b) * k * dt},
+                        {"pos": {"p": x}, "vel": {"w": v + k}})
+    d3 = gen.Definition(dt, [x, v], [a, b, c], [], {x: x + v * dt + c * dt, v: v + (a + 2 * b) * dt},
+                        {"pos": {"p": x, "q": 2 * x + v}})
+    n = 0
+    for d, cal, declared in ((d2, {"k": 1.5}, ("fwd", "rev", "set")), (d3, {}, ("fwd", "set"))):
+        process = {s.name: F(i + 1, 4) for i, s in enumerate(d.control)}
+        sensor = {key: {r: F(j + 3, 8) for j, r in enumerate(rd)} for key, rd in d.sensors.items()}
+        base = Spec(d, process, sensor, cal)
+        for how in declared:
+            for perm in itertools.permutations(base.noise):
+                todo = []
+                spec = copy.deepcopy(base)
+                if how == "rev":
+                    spec.control.reverse()
+                spec.noise = list(perm)
+                todo.append(("V3", None, spec))
+                if how != "rev":
+                    for pos in range(len(perm)):
+                        f = copy.deepcopy(spec); del f.noise[pos]
+                        todo.append(("K10p", pos, f))
+                    for pos in range(len(perm) + 1):
+                        f = copy.deepcopy(spec); f.noise.insert(pos, ("sym", spec.state[pos % len(spec.state)], 0.5))
+                        todo.append(("K11ap", pos, f))
+                        f = copy.deepcopy(spec); f.noise.insert(pos, ("sym", "zz9", 0.5))
+                        todo.append(("K11bp", pos, f))
+                for kind, pos, sp in todo:
+                    n += 1
+                    container = "set" if how == "set" else "list"
+                    res = run_entry_points(ctx, sp, "ekf", f"o{n}", None, container=container, flags={})
+                    ctx.count("written-order:" + ("valid" if kind == "V3" else "faulty"))
+                    case = {"fault": kind, "position": pos, "controls_declared_as": container, "def": sp.describe()}
+                    idx = drv.add({"op": "accept", "def": sp.vdef()})
+                    pending.append((idx, res, kind, case, False, max(len(rd) for rd in sp.sensors.values())))
+
+
 def run(ctx):
     import ekf_h as eh
     audit = core.lean_audit("C14")
@@ -352,6 +404,7 @@ def run(ctx):
             case = {"fault": kind, "position": pos, "def": spec.describe()}
             idx = drv.add({"op": "accept", "def": spec.vdef()})
             pending.append((idx, res, kind, case, spec.reading_syms, max(len(rd) for rd in spec.sensors.values()) if spec.sensors else 0))
+    written_order_stream(ctx, drv, pending)      # appended last: draws nothing from ctx.rng
     ans = drv.run()
     for idx, res, kind, case, rsyms, maxr in pending:
         a = ans[idx]
